@@ -24,6 +24,7 @@ class G:
         self.ops = []
         self.nasty = nasty
         self.single_line = False
+        self.shared_note = None
 
     def emit(self, op):
         self.ops.append(op)
@@ -44,6 +45,13 @@ class G:
     def otext(self, p=0.3):
         return self.text() if self.r.random() < p else None
 
+    def note_arg(self, p):
+        """a note argument: None, a string, or (sometimes) one Note object handed to several owners —
+        constructors must copy it, not adopt it"""
+        if self.shared_note is not None and self.r.random() < 0.5:
+            return V('obj', self.shared_note)
+        return vs(self.otext(p))
+
     def ident(self, pool):
         r = self.r
         if r.random() < self.nasty * 0.5:
@@ -59,6 +67,9 @@ def gen_database(r, nasty=0.0, size=None, allow_props=None, renderers=(0, 1), db
     allow = r.random() < 0.4 if allow_props is None else allow_props
     db = g.emit(Op(21, renderers[0], renderers[1], allow))
     info['db'] = db
+    if r.random() < 0.2:
+        g.shared_note = g.emit(Op(10, g.text(True)))
+        info['notes'].append(g.shared_note)
     size = r.choice([1, 2, 2, 3, 3, 4]) if size is None else size
     # enums
     enum_slots = []
@@ -68,7 +79,7 @@ def gen_database(r, nasty=0.0, size=None, allow_props=None, renderers=(0, 1), db
             if r.random() < 0.5:
                 items.append(V('str', g.ident(['active', 'closed', 'in progress', 'x'])))
             else:
-                ei = g.emit(Op(16, g.ident(['new', 'done', 'wait ing']), vs(g.otext(0.4)), g.otext(0.3)))
+                ei = g.emit(Op(16, g.ident(['new', 'done', 'wait ing']), g.note_arg(0.4), g.otext(0.3)))
                 info['enumitems'].append(ei)
                 items.append(V('obj', ei))
         e = g.emit(Op(17, g.ident(['status', 'kind', 'my enum']), items, r.choice(SCHEMAS), g.otext(0.3)))
@@ -121,11 +132,11 @@ def gen_database(r, nasty=0.0, size=None, allow_props=None, renderers=(0, 1), db
             pk = (pk_layout == 'single' and i == 0) or (pk_layout == 'composite' and i < 2)
             props = [(g.ident(['k', 'key2', 'weird key']), g.text(True))] if r.random() < 0.25 else []
             c = g.emit(Op(12, cn, ty, r.random() < 0.25, r.random() < 0.3, pk, r.random() < 0.15, d,
-                          vs(g.otext(0.3)), g.otext(0.2), props))
+                          g.note_arg(0.3), g.otext(0.2), props))
             cols.append(c)
         alias = g.ident(['u', 'p', 'al ias', 'A']) + str(len(info['tables'])) if r.random() < 0.3 else None
         tprops = [(g.ident(['tk', 'other']), g.text(True))] if r.random() < 0.25 else []
-        t = g.emit(Op(14, name, schema, alias, cols, [], vs(g.otext(0.35)),
+        t = g.emit(Op(14, name, schema, alias, cols, [], g.note_arg(0.35),
                       r.choice(COLORS) if r.random() < 0.2 else None, g.otext(0.25), False, tprops))
         info['tables'].append(t)
         info['columns'][t] = cols
@@ -146,7 +157,7 @@ def gen_database(r, nasty=0.0, size=None, allow_props=None, renderers=(0, 1), db
                     subs.append((0, r.choice(['raw_col', '(expr)'])))
             ix = g.emit(Op(13, V('subjects', subs), g.ident(['idx', 'my index']) if r.random() < 0.4 else None,
                            r.random() < 0.3, r.choice(INDEX_TYPES) if r.random() < 0.3 else None,
-                           r.random() < 0.2, vs(g.otext(0.2)), g.otext(0.2)))
+                           r.random() < 0.2, g.note_arg(0.2), g.otext(0.2)))
             g.emit(Op(52, t, ix))
             idxs.append(ix)
         info['indexes'][t] = idxs
@@ -181,13 +192,13 @@ def gen_database(r, nasty=0.0, size=None, allow_props=None, renderers=(0, 1), db
         info['added'][gr] = g.emit(Op(30, r.choice([0, 4]), db, gr))
         info['groups'].append(gr)
     for si in range(r.choice([0, 0, 1, 2])):
-        s = g.emit(Op(18, g.ident(['sticky', 'n1', 'my note']), g.text(True)))
+        s = g.emit(Op(18, g.ident(['sticky', 'n1', 'my note']), '' if r.random() < 0.15 else g.text(True)))
         info['added'][s] = g.emit(Op(30, r.choice([0, 6]), db, s))
         info['stickies'].append(s)
     if r.random() < 0.4:
         items = [(g.ident(['database_type', 'author', 'my key']), g.text(True)) for _ in range(r.randint(0, 2))]
         items = list(dict(items).items())
-        p = g.emit(Op(19, g.ident(['proj', 'my project']), items, vs(g.otext(0.5)), g.otext(0.3)))
+        p = g.emit(Op(19, g.ident(['proj', 'my project']), items, g.note_arg(0.5), g.otext(0.3)))
         info['added'][p] = g.emit(Op(30, r.choice([0, 5]), db, p))
         info['project'] = p
     return g, info
